@@ -715,6 +715,16 @@ func (p *Prog) LevelHelp(path string) string {
 	return ""
 }
 
+// LevelHelpSections returns Help(sections...) of the GetOpt object of the level with the given path.
+func (p *Prog) LevelHelpSections(path string, sections ...getoptions.HelpSection) string {
+	for _, l := range p.Levels {
+		if l.path == path {
+			return l.opt.Help(sections...)
+		}
+	}
+	return ""
+}
+
 // Opt returns the root GetOpt.
 func (p *Prog) Opt() *getoptions.GetOpt { return p.Root.opt }
 
